@@ -57,13 +57,13 @@ P = {
          "Static: every GenesisState field is read by init and assigned by export, every writable region is exported and imported, each keyed list has a duplicate check keyed by the setter's key function on the map it inserts into. Not decided: JSON codec, run-time multiset equality.",
          "go/ssa"),
  "C18": ("other", "determinism scan of module code (map range, time, rand, env, goroutines, channels, sync, package-level writes)",
-         "Static: none of the nondeterminism sources occurs in module code, package-level state is written only in initialisers, keeper fields only in the constructor, lists are built in store iterator order. Not decided: determinism of dependencies and runtime.",
+         "Static: none of the nondeterminism sources occurs in module code, every function outside the module that consensus code calls is in a judged table (fail-closed), registration functions run at init only, nothing formatted prints an address, package-level state is written only in initialisers, keeper fields only in the constructor, no interface of unknown implementation is invoked, lists are built in store iterator order. Not decided: determinism of dependencies beyond the judged table, and of the runtime.",
          "dependencies and Go runtime are deterministic for the operations used"),
  "C19": ("other", "key-derivation agreement per collection, existence guards by cut-sets, query->getter wiring terms",
          "Static: Get/Set/Delete/Validate derive the same injective key per collection, add/remove are guarded by existence, single queries call the collection's getter with the request fields, list queries paginate the collection's own prefix. Not decided: query.Paginate and iterator behaviour.",
          "cosmos-sdk query.Paginate and prefix store iterate in key order"),
  "C20": ("other", "inventory of panic-capable constructs reachable from entry points, each discharged by a dominating guard or a reasoned table entry",
-         "Static: every explicit panic, slice/index expression, nil-able math.Int use and panicking constructor reachable from the 25+19+codec+CLI entry points is guarded or allow-listed with its reason. Not decided: panics inside dependencies other than the tabled APIs.",
+         "Static: every explicit panic, slice/index/full-slice expression, slice-to-array conversion, signed shift, nil-able pointer result, nil-able math.Int use, panicking constructor and loop reachable from the 25+19+codec+CLI entry points (including methods reachable only through interface values handed to dependencies, and every text slice in the cli package) is guarded, bounded or allow-listed with its reason; external callees are confined to a judged table. Not decided: panics inside dependencies other than through the tabled APIs.",
          "frozen table of panicking dependency APIs"),
 }
 
@@ -94,9 +94,9 @@ m = {
     "hooks": {"guard": "verif", "enable": "none needed: the analysis reads /repo's source; no build tag is used", "baseline_off_cmd":
               "cd /repo && GOWORK=off GOFLAGS=-mod=mod GOPROXY=off GOSUMDB=off go test -vet=off -count=1 ./...", "source_commits": [], "add_only": True},
     "engines": [{"name": "cctpcheck", "path": "/verif/checker", "serves_properties": sorted(IMPLEMENTED),
-                 "kind_free_text": "repository-specific static analyser on go/packages + go/types + go/ssa (x/tools v0.29.0): effect summaries, CFG cut-set guards walked through new helper functions (detours), SSA provenance terms with normal forms, call-graph rules"}],
+                 "kind_free_text": "repository-specific static analyser on go/packages + go/types + go/ssa (x/tools v0.29.0): effect summaries, CFG cut-set guards walked through new helper functions (detours), SSA provenance terms with normal forms, call-graph rules; global fail-closed obligations asked by every property: mutation discipline (who may write which memory), call resolution (no unresolved/recursive/deferred/unknown-interface call), exact service and genesis wiring, module boundary (capabilities, callbacks, module-typed interface values handed to outside code), generated-code inventory, unconditional accessor writes"}],
     "checks": checks,
-    "notes": "All checks are static analyses of /repo's current source (nothing in /repo is executed). Genuine defects found are fixed in /repo by 'fix:' commits or listed in /verif/known_findings.json; see DESIGN.md §5. The thorough tier additionally replays the committed corpora against scratch copies of the tree (mutants/*.json: every entry must be reported by its property; benign/*.json: must stay silent, eight documented false alarms are shown as known-false-alarm; seeded/*: agent-written breaking changes with demonstrations) — DESIGN.md §11/§12. New (non-reference) helper functions are analysed through: see DESIGN.md §11.",
+    "notes": "All checks are static analyses of /repo's current source (nothing in /repo is executed). Genuine defects found are fixed in /repo by 'fix:' commits or listed in /verif/known_findings.json; see DESIGN.md §5. The thorough tier additionally replays the committed corpora against scratch copies of the tree (mutants/*.json: every entry must be reported by its property; benign/*.json: must stay silent, twelve documented false alarms are shown as known-false-alarm; seeded/*: 125 agent-written breaking changes with demonstrations, 50 of them written by white-box adversaries against the checker's own source) — DESIGN.md §11/§12. New (non-reference) helper functions are analysed through: see DESIGN.md §11.",
     "not_applicable": na,
 }
 json.dump(m, open(os.path.join(HERE, "MANIFEST.json"), "w"), indent=1)
